@@ -13,6 +13,7 @@ APPLY_ONLY = len(sys.argv) > 4 and sys.argv[4] == "--apply"      # apply the (fi
 EXH = "pabutools/rules/exhaustion.py"
 COMP = "pabutools/rules/composition.py"
 GREEDY = "pabutools/rules/greedywelfare/greedywelfare_rule.py"
+PHRAG = "pabutools/rules/phragmen.py"
 
 M = []
 def R(name, *edits): M.append((name, "rewrite", edits))
@@ -471,6 +472,73 @@ B("GB15 greedy: density inverted (cost per satisfaction)", (GREEDY, "return frac
 B("GB16 greedy: sorted before the tie-breaking order is applied", (GREEDY, "    projects = tie_breaking.order(instance, profile, projects)\n", ""),
   (GREEDY, G_SORT, G_SORT + "    ordered_projects = tie_breaking.order(instance, profile, ordered_projects)\n"))
 
+# ---------------- sequential Phragmen (C05gen) ----------------
+P_UPD = """                    for voter in voters:
+                        if selected_project in voter.ballot:
+                            voter.load = min_new_maxload
+"""
+P_STOP = """            if any(
+                cost + project.cost > inst.budget_limit
+                for project in arg_min_new_maxload
+            ):
+"""
+R("P01 recorded rewrite harmless/rules3-3 (store_alloc / update_loads helpers, set comprehension)", ("PATCH", "/verif/harmless/rules3-3/patch.diff", None))
+R("P02 phragmen: local names in the inner function", (PHRAG, "arg_min_new_maxload", "arg_best"), (PHRAG, "min_new_maxload", "best_load"), (PHRAG, "tied_projects", "tied"))
+R("P03 phragmen: `if not projects`, stop test as a comprehension list", (PHRAG, "        if len(projects) == 0:\n", "        if not projects:\n"),
+  (PHRAG, P_STOP, "            if any([cost + p.cost > inst.budget_limit for p in arg_min_new_maxload]):\n"))
+R("P04 phragmen: zero score tested first the other way round, > for <", (PHRAG, """                if approval_scores[project] == 0:
+                    new_maxload = float("inf")
+                else:
+                    new_maxload = frac(
+                        sum(voters[i].total_load() for i in supporters[project])
+                        + project.cost,
+                        approval_scores[project],
+                    )
+                if min_new_maxload is None or new_maxload < min_new_maxload:""", """                if approval_scores[project] != 0:
+                    new_maxload = frac(
+                        sum(voters[i].total_load() for i in supporters[project])
+                        + project.cost,
+                        approval_scores[project],
+                    )
+                else:
+                    new_maxload = float("inf")
+                if min_new_maxload is None or min_new_maxload > new_maxload:"""))
+R("P05 phragmen: the selected project named before the loads are updated, cost added to a local", (PHRAG, """                    alloc.append(selected_project)
+                    projects.remove(selected_project)
+                    aux(""", """                    projects.remove(selected_project)
+                    alloc.append(selected_project)
+                    new_cost = cost + selected_project.cost
+                    aux("""), (PHRAG, """                        alloc,
+                        cost + selected_project.cost,
+                        allocs,
+                        resolute,
+                    )
+                else:""", """                        alloc,
+                        new_cost,
+                        allocs,
+                        resolute,
+                    )
+                else:"""))
+R("P06 phragmen: voters built with an explicit loop", (PHRAG, "        voters_details = [PhragmenVoter(b, 0, profile.multiplicity(b)) for b in profile]\n",
+  "        voters_details = []\n        for b in profile:\n            voters_details.append(PhragmenVoter(b, 0, profile.multiplicity(b)))\n"))
+
+B("PB01 seeded C05-5a (pruning with >= for >)", ("PATCH", "/verif/seeded/C05-5a/patch.diff", None))
+B("PB02 seeded C05-5b (initial loads misaligned)", ("PATCH", "/verif/seeded/C05-5b/patch.diff", None))
+B("PB03 seeded C06-5a (initial loads misaligned after merging ballots)", ("PATCH", "/verif/seeded/C06-5a/patch.diff", None))
+B("PB04 seeded C05-6a (budget pre-filter dropped)", ("PATCH", "/verif/seeded/C05-6a/patch.diff", None))
+B("PB05 seeded C05-6b (module-level score cache)", ("PATCH", "/verif/seeded/C05-6b/patch.diff", None))
+B("PB06 seeded C01-6a (stop test on the first tied project only)", ("PATCH", "/verif/seeded/C01-6a/patch.diff", None))
+B("PB07 seeded C08-5b (deepcopy hoisted out of the tie loop)", ("PATCH", "/verif/seeded/C08-5b/patch.diff", None))
+B("PB08 seeded C08-4b (resolute early exit at exact budget)", ("PATCH", "/verif/seeded/C08-4b/patch.diff", None))
+B("PB09 seeded C13-4a (initial allocation aliased)", ("PATCH", "/verif/seeded/C13-4a/patch.diff", None))
+B("PB10 seeded C06-6a (PhragmenVoter copy losing the multiplicity)", ("PATCH", "/verif/seeded/C06-6a/patch.diff", None))
+B("PB11 phragmen: <= for < in the running minimum", (PHRAG, "new_maxload < min_new_maxload:", "new_maxload <= min_new_maxload:"))
+B("PB12 phragmen: cost of the project left out of the new maximum load", (PHRAG, "                        + project.cost,\n", "                        ,\n"))
+B("PB13 phragmen: loads set to the cost share instead of the new maximum load", (PHRAG, P_UPD, P_UPD.replace("voter.load = min_new_maxload", "voter.load = voter.load + frac(selected_project.cost, approval_scores[selected_project])")))
+B("PB14 phragmen: all(...) in the stop test", (PHRAG, P_STOP, P_STOP.replace("if any(", "if all(")))
+B("PB15 phragmen: tied projects not name-sorted before the tie-breaking", (PHRAG, "inst, prof, sorted(arg_min_new_maxload)", "inst, prof, arg_min_new_maxload"))
+B("PB16 phragmen: >= in the stop test", (PHRAG, "cost + project.cost > inst.budget_limit", "cost + project.cost >= inst.budget_limit"))
+
 # ---------------- edits that leave the fragment / the aliasing discipline: must fail closed ----------------
 B("B33 increase: the outcome of the rule is mutated in place", (EXH, "            if exhaustive_stop and instance.is_exhaustive(outcome):\n                return outcome\n",
   "            if exhaustive_stop and instance.is_exhaustive(outcome):\n                outcome.extend([])\n                return outcome\n"))
@@ -529,7 +597,9 @@ def main():
         failed = [l.split(":")[0] for l in r.stdout.split("\n") if l.endswith(": FAILS")]
         if kind == "break":
             # an edit of one file must not take the other property's theorems down with it
-            want = {EXH: "C09gen", COMP: "C19gen", GREEDY: "C03gen"}.get(edits[0][0], "C09gen")
+            want = {EXH: "C09gen", COMP: "C19gen", GREEDY: "C03gen", PHRAG: "C05gen"}.get(edits[0][0], "C09gen")
+            if name.startswith("PB"):
+                want = "C05gen"
             if failed and failed != [want]:
                 verdict += "+" + ",".join(failed)
         if not checks:
